@@ -187,14 +187,17 @@ bool ReverseDb::Build(DictSettings* settings,
   metadata_->value_trie = value_trie_image;
   metadata_->value_trie_size = value_trie_image_size;
 
+  RIME_VERIF_CRASHPOINT("reverse.build:before_tag");
   // at last, complete the metadata
   std::strncpy(metadata_->format, kReverseFormat,
                reverse::Metadata::kFormatMaxLength);
+  RIME_VERIF_CRASHPOINT("reverse.build:end");
   return true;
 }
 
 bool ReverseDb::Save() {
   LOG(INFO) << "saving reverse file: " << file_path();
+  RIME_VERIF_CRASHPOINT("reverse.save");
   return ShrinkToFit();
 }
 
